@@ -126,3 +126,25 @@ def pre_layout(R):
             cl = tuple(lay['offsets'][1:5]) + (lay['size'],)
             if cl != exp: ok = False; notes.append('%s vec%d: clang/ll2c %s, harness %s' % (n, v, cl, exp))
     return ok, 'vector context layout (gcc offsetof and clang/ll2c layout vs harness constants): ' + ('ok' if ok else 'MISMATCH ' + '; '.join(notes))
+
+
+def ctr_rekey_queries(tier, ops_filter=None):
+    """C05-style obligation for key/tweak changes in mid-stream on every CTR back end (harness/c05.c, OB_REKEY)"""
+    from .core import Q
+    qs = []
+    for (c, v) in CTR_BACKENDS:
+        name = be_name(c, v); blk = 16 if c == 1 else 8
+        lanes = {(1, 0): 1, (1, 128): 4, (1, 256): 8, (2, 0): 1, (2, 128): 8, (3, 0): 1, (3, 128): 8}[(c, v)]; B = blk * lanes
+        ll = ctr_vec_ll(c, v) if v else []
+        ops = [(1, 'set_key', [16] if c == 3 else [blk, 3 * blk])]
+        if c != 3: ops += [(2, 'set_tweaked_key', [blk]), (3, 'set_tweak', [1, blk])]
+        else: ops += [(3, 'set_tweak', [8])]
+        offs = sorted(set([1, blk, B - 1, B] + ([blk + 3, B - blk] if v else []))) if tier == 'quick' else list(range(0, B + 1))
+        for op, oname, lens in ops:
+            if ops_filter and oname not in ops_filter: continue
+            for kl in lens:
+                for o in offs:
+                    qs.append(Q('rekey:%s:%s:%d:o%d' % (name, oname, kl, o), 'c05.c',
+                                '%s(len %d) on the %s back end in mid-stream (offset %d, arbitrary old schedule, arbitrary buffered bytes): returns 1, lanes stay staggered, and any keystream still counted as buffered is the encryption under the NEW schedule' % (oname, kl, name, o),
+                                defs={'CIPHER': c, 'VEC': v, 'OB_REKEY': 1, 'OP': op, 'KLEN': kl, 'O': o, 'NR': (5 if c == 3 else (40 if c == 1 else 32)) if op != 3 else 2}, ll=ll, timeout=900, fsarray=(1300 if v else None), sanitize=True))
+    return qs
